@@ -598,3 +598,103 @@ def _check_step_path(ctx, K, f, p: Path) -> None:
         ctx.ob("BATHS-fresh", f"{tag} new hamiltonian", hstores[-1].loc(), bool(okh),
                "a rebuilt Hamiltonian is filled (update_H) and its baths rebuilt before the next sweep" if okh else
                "self.hamiltonian is replaced without a following update_H and init_baths", entry=f.qualname)
+
+
+# ===================================================================== initial states
+def sv_initial_state(ctx) -> None:
+    """SVBackendImpl.__init__: the evolved state is a *clone* of the user's initial state (or the all-ground state
+    of the right size), and a size mismatch raises."""
+    prog = ctx.prog
+    K = prog.cls(SV)
+    f = K.methods["__init__"]
+    it = Interp(prog, K, inline=lambda c, r, d: False)
+    paths = it.run(f)
+    rets = [p for p in paths if p.status == "return"]
+    ctx.require(rets, "SVBackendImpl.__init__: no returning path")
+    user = default = 0
+    okc = okd = True
+    for p in rets:
+        st = p.heap.get((SELF, "state"))
+        if st is None:
+            continue
+        s = show(st)
+        given = any("initial_state is None" in show(c) and t is False for c, t in p.cond_log)
+        if given:
+            user += 1
+            okc = okc and "initial_state.data.clone()" in s
+        else:
+            default += 1
+            okd = okd and ".make(" in s and ("self.nqubits" in s or "omega.shape[1]" in s)
+    ctx.ob("ROLE-sv", "initial state cloned", f.loc(), okc and user >= 1,
+           "a user initial state is cloned before it is evolved in place" if okc and user else
+           "the user's initial state tensor is not cloned: the run overwrites the object the caller still holds")
+    ctx.ob("ROLE-sv", "default initial state", f.loc(), okd and default >= 1,
+           "without an initial state the run starts from make(nqubits)" if okd and default else
+           "the default initial state is not state_type.make(number of atoms)")
+    mism = any(p.status == "raise" and p.cond_log and "n_qudits" in show(p.cond_log[-1][0]) and "!=" in show(p.cond_log[-1][0]).replace("==", "!=")
+               for p in paths)
+    ctx.ob("ROLE-sv", "initial state size check", f.loc(), mism,
+           "an initial state with another number of atoms raises" if mism else
+           "an initial state whose size differs from the register is accepted")
+    fd = field_defs(prog, K)
+    okn = any("omega.shape[1]" in show(v) for v, _ in fd.get("nqubits", []))
+    ctx.ob("ROLE-sv", "nqubits", f.loc(), okn, "nqubits = number of drive columns" if okn else
+           f"nqubits = {[show(v) for v, _ in fd.get('nqubits', [])]}")
+
+
+def mps_initial_state(ctx) -> None:
+    """MPSBackendImpl.init_initial_state: a user state is deep-copied, truncated, normalised and gauged to site 0;
+    the default state has the run's precision / bond cap / eigenstates."""
+    prog = ctx.prog
+    K = prog.cls(MPS)
+    f = K.methods["init_initial_state"]
+    it = Interp(prog, K, inline=lambda c, r, d: False)
+    paths = [p for p in it.run(f) if p.status == "return"]
+    n_user = n_default = 0
+    for p in paths:
+        ev = p.events
+        st = [e for e in ev if e.kind == "setattr" and e.name == "state" and e.target[0] == SELF]
+        if not st:
+            continue
+        given = any("initial_state is None" in show(c) and t is False for c, t in p.cond_log)
+        if not given:
+            n_default += 1
+            mk = [e for e in ev if e.kind == "call" and e.name.endswith("MPS.make")]
+            ok = len(mk) == 1 and show(mk[0].args.get("precision")).endswith("config.precision") and \
+                show(mk[0].args.get("max_bond_dim")).endswith("config.max_bond_dim") and \
+                show(mk[0].args.get("eigenstates")).endswith("self.eigenstates") and \
+                show(mk[0].args.get("num_sites")).endswith("self.qubit_count")
+            ctx.ob("ROLE-mps", "default initial state", (mk[0] if mk else f).loc() if mk else f.loc(), ok,
+                   "default state: MPS.make(qubit_count, config.precision, config.max_bond_dim, eigenstates)" if ok else
+                   "the default initial MPS is not built from qubit_count / config.precision / config.max_bond_dim / eigenstates",
+                   entry=f.qualname)
+            continue
+        n_user += 1
+        new = [e for e in ev if e.kind == "call" and e.name == "emu_mps.mps.MPS"]
+        okcopy = False
+        okcfg = False
+        if new:
+            e = new[-1]
+            fac = strip_typed(e.args.get("factors"))
+            okcopy = fac[0] == "comp" and ".clone()" in show(fac[2][0]) and "initial_state" in show(fac[3][0][0])
+            okcfg = show(e.args.get("precision")).endswith("config.precision") and \
+                show(e.args.get("max_bond_dim")).endswith("config.max_bond_dim")
+        names = []
+        for e in ev:
+            if e.kind == "call" and e.name.endswith("MPS.truncate"):
+                names.append("truncate")
+            elif e.kind == "call" and e.name.endswith("orthogonalize"):
+                names.append("orthogonalize")
+            elif e.kind == "setattr" and e.name == "state":
+                names.append("store")
+        normalised = "norm()" in show(st[-1].value)
+        okseq = names[:1] == ["truncate"] and "store" in names and names[-1] == "orthogonalize" and normalised
+        ctx.ob("ROLE-mps", "user initial state copied", (new[-1] if new else f).loc() if new else f.loc(), okcopy and okcfg,
+               "the user's MPS factors are cloned into a new MPS with the run's precision and bond cap" if okcopy and okcfg
+               else "the user's initial MPS is used without a deep copy / with its own precision: truncation and "
+                    "normalisation would modify the caller's object", entry=f.qualname)
+        ctx.ob("ROLE-mps", "user initial state prepared", f.loc(), okseq,
+               "copy → truncate → normalise → store → orthogonalize(0)" if okseq else
+               f"the user initial state is prepared as {names} (normalised: {normalised}); expected truncate, "
+               f"normalise, store, orthogonalize(0)", entry=f.qualname)
+    ctx.require(n_user >= 1 and n_default >= 1, "init_initial_state: user/default paths not found")
